@@ -102,6 +102,6 @@ def distribution(recs):
 
 
 MANIFEST = {
- "text": "For every decoded config and restart instant: if the file is accepted, the kept stages are — in file order — exactly those selected by the skip rule 'stage-start + cumulative duration > now' (all of them without stage-start), with their own or inherited durations and parameters (C15_kept, C15_all_kept_without_start, C15_defaults via stageLoop_spec, induction over the stage list), the total duration is the sum over all stages (C15_total) and the limits are mapped one-to-one with the two optional ones defaulting to 0 (C15_limits). Tie: structured configs at every boundary instant through the real ParseConfigFile; run-time half also monitored on real file-triggered runs (run op and command line), including stage start times. Run time: on a model of newStagesWorker/runStage with the process environment as an association list, for every way the run ends (all stages done, cancelled inside a stage, iteration limit reached before a stage): stages trigger in file order one after another, while a stage triggers each of its parameters has its configured value and no other stage's parameter is set, and none of them is set when the trigger returns (C15_stages_env, C15_run_env, C15_stage_cleans_up; induction over the stage list). Regenerated: ParseConfigFile's stage loop (planLoop_spec, file_ParseConfigFile_ok/_err; bridged to keptSpec/totalSpec by keptPure_keptSpec), the stage worker loop (file_stagesWorker_refines, stagesRun_prefix) and the dry-run closure are translated on every run and proved by induction over the stage slice; mg.plan executes the regenerated parser on every accepted plan case.",
+ "text": "For every decoded config and restart instant: if the file is accepted, the kept stages are — in file order — exactly those selected by the skip rule 'stage-start + cumulative duration > now' (all of them without stage-start), with their own or inherited durations and parameters (C15_kept, C15_all_kept_without_start, C15_defaults via stageLoop_spec, induction over the stage list), the total duration is the sum over all stages (C15_total) and the limits are mapped one-to-one with the two optional ones defaulting to 0 (C15_limits). Tie: structured configs at every boundary instant through the real ParseConfigFile; run-time half also monitored on real file-triggered runs (run op and command line), including stage start times. Run time: on a model of newStagesWorker/runStage with the process environment as an association list, for every way the run ends (all stages done, cancelled inside a stage, iteration limit reached before a stage): stages trigger in file order one after another, while a stage triggers each of its parameters has its configured value and no other stage's parameter is set, and none of them is set when the trigger returns (C15_stages_env, C15_run_env, C15_stage_cleans_up; induction over the stage list). Regenerated: ParseConfigFile's stage loop (planLoop_spec, file_ParseConfigFile_ok/_err; bridged to keptSpec/totalSpec by keptPure_keptSpec), the stage worker loop (file_stagesWorker_refines, stagesRun_prefix) and the dry-run closure are translated on every run and proved by induction over the stage slice; mg.plan executes the regenerated parser on every accepted plan case. Regenerated: runStage (parameters exported first, removed last on every path), setEnvs / unsetEnvs (one call per entry with its own key and value), the file trigger's New closure (every option is the plan's field of the same meaning) - RefineC05U / RefineC15F.",
  "note": "YAML decoding and the process environment are external. The run-time statements (strictly sequential stages, env set while a stage triggers, unset afterwards) are proved on a model of the stage loop (os.Setenv/Unsetenv as an association list; goroutine scheduling inside a stage is not part of it) and monitored on real file-triggered runs.",
  "technique": "Lean 4 theorems (induction over the stage list against a scan/filter specification) + differential check at boundary instants; refinement of the regenerated stage loops (MiniGo)"}
